@@ -386,9 +386,25 @@ fn s_line(out: &mut impl Write, rng: &mut Rng, matcher: &mut Matcher) {
         .iter()
         .map(|(it, sc)| format!("{}.{}", it.0, sc))
         .collect();
+    // Atom::match_list of the first atom over the same items (a negated atom scores 0 for the items it lets through)
+    let (aitems, alist) = match pattern.atoms.first() {
+        Some(a) => {
+            let per: Vec<String> = items
+                .iter()
+                .map(|it| match a.score(Utf32Str::new(it, &mut buf), matcher) {
+                    Some(s) => s.to_string(),
+                    None => "n".to_string(),
+                })
+                .collect();
+            let l = a.match_list(items.iter().enumerate().map(|(i, s)| It(i, s.as_str())), matcher);
+            let ids: Vec<String> = l.iter().map(|(it, sc)| format!("{}.{}", it.0, sc)).collect();
+            (if per.is_empty() { "-".to_string() } else { per.join(",") }, if ids.is_empty() { "-".to_string() } else { ids.join(",") })
+        }
+        None => ("x".to_string(), "x".to_string()),
+    };
     writeln!(
         out,
-        "S cfg={} pre={}{} hr={} hay={} ext={} atoms={} res={}/{} each={} items={} list={}",
+        "S cfg={} pre={}{} hr={} hay={} ext={} atoms={} res={}/{} each={} items={} list={} aitems={} alist={}",
         cfg_id,
         pre_ic as u8,
         pre_nz as u8,
@@ -401,6 +417,8 @@ fn s_line(out: &mut impl Write, rng: &mut Rng, matcher: &mut Matcher) {
         if each.is_empty() { "-".to_string() } else { each.join("|") },
         if per_item.is_empty() { "-".to_string() } else { per_item.join(",") },
         if list_ids.is_empty() { "-".to_string() } else { list_ids.join(",") },
+        aitems,
+        alist,
     )
     .unwrap();
 }
